@@ -498,6 +498,7 @@ def apply_step(sched, step, pool=None):
     tr = make_trans(name, opts)
     if pool is not None:
         opt_obj, written = pool.get(opts)
+        before = copy.deepcopy(opt_obj)
     else:
         opt_obj, written = apply_options(opts), None
     try:
@@ -507,8 +508,9 @@ def apply_step(sched, step, pool=None):
             else:
                 tr.apply([nodes[t] for t in targets], opt_obj)
         finally:
-            if pool is not None and opt_obj is not None and opt_obj != written:
-                pool.mutations.append(f"{type(tr).__name__}.apply left the caller's options {written} as {opt_obj}")
+            if pool is not None and opt_obj is not None and opt_obj != before:
+                pool.mutations.append(f"{type(tr).__name__}.apply changed the caller's options dictionary from {before} to "
+                                      f"{opt_obj} (the caller wrote {written})")
     except TransformationError as e:
         return "refused", str(e.value)[:200]
     except Exception as e:   # noqa: broad on purpose
